@@ -135,6 +135,10 @@ def scalar_runs(ctx, rng, idx):
     amp = float(10 ** rng.uniform(-24, -15)) if r < 0.15 else float(10 ** rng.uniform(-30, 30)) if r < 0.25 else 1.0
     if amp != 1.0:
         s.field.data[0] *= amp
+    elif rng.random() < 0.15:
+        # a small disturbance (1e-3...1e-10) riding on a constant: neighbouring values nearly, but not exactly, equal
+        s.field.data[0] = float(rng.uniform(0.5, 2)) * float(rng.choice([-1, 1])) + float(10 ** rng.uniform(-10, -3)) * s.field.data[0]
+        amp = "constant + small disturbance"
     lim = 1.0 if first else 0.5
     cfl = lim if rng.random() < 0.25 else float(rng.uniform(0.02, lim))
     nstep = int(rng.integers(1, 31))
